@@ -116,3 +116,85 @@ func TripleCorpus() []*ConcScenario {
 	}
 	return out
 }
+
+// OrderCorpus: for every request kind that can name several objects / targets / actors, two
+// concurrent requests naming the same two local values in OPPOSITE order (a lock kept across loop
+// iterations then deadlocks or loses an update), each also paired with the single-valued request of
+// the same type.
+func OrderCorpus() []*ConcScenario {
+	act := func(s int) string { return []string{RAct, RAct2}[s] }
+	who := func(s int) string { return []string{Carol, Dave}[s] }
+	ord := func(s int, a, b interface{}) L {
+		if s == 0 {
+			return L{a, b}
+		}
+		return L{b, a}
+	}
+	in := func(n string, s int, body M) *Scenario { return inReq(fmt.Sprintf("%s#%d", n, s), inbox(Alice), body) }
+	out := func(n string, s int, body M) *Scenario { return outReq(fmt.Sprintf("%s#%d", n, s), outbox(Alice), body) }
+	rNoteA, rNoteB := "https://r1.example/n/new-a", "https://r1.example/n/new-b"
+	kinds := []reqKind{
+		{"in-like-2", func(s int) *Scenario { return in("in-like-2", s, Doc("Like", act(s), "actor", who(s), "object", ord(s, Note1, Note2))) }},
+		{"in-announce-2", func(s int) *Scenario {
+			return in("in-announce-2", s, Doc("Announce", act(s), "actor", who(s), "object", ord(s, Note1, Note2)))
+		}},
+		{"in-like-announce-2", func(s int) *Scenario {
+			return in("in-like-announce-2", s, Doc([]string{"Like", "Announce"}[s], act(s), "actor", who(s), "object", ord(s, Note1, Note2)))
+		}},
+		{"in-remove-2-targets", func(s int) *Scenario {
+			return in("in-remove-2-targets", s, Doc("Remove", act(s), "actor", who(s), "object", Dave, "target", ord(s, Col1, OCol1)))
+		}},
+		{"in-add-remove-2-targets", func(s int) *Scenario {
+			return in("in-add-remove-2-targets", s, Doc([]string{"Add", "Remove"}[s], act(s), "actor", who(s), "object", Dave, "target", ord(s, Col1, OCol1)))
+		}},
+		{"in-add-2-objects", func(s int) *Scenario {
+			return in("in-add-2-objects", s, Doc("Add", act(s), "actor", who(s), "object", ord(s, RNote, RNote2), "target", Col1))
+		}},
+		{"in-follow-2-objects", func(s int) *Scenario {
+			return in("in-follow-2-objects", s, Doc("Follow", act(s), "actor", who(s), "object", ord(s, Alice, Bob)))
+		}},
+		{"in-accept-2-actors", func(s int) *Scenario {
+			return in("in-accept-2-actors", s, Doc("Accept", act(s), "actor", ord(s, Carol, Dave), "object", "https://l.example/f/2"))
+		}},
+		{"in-create-2-objects", func(s int) *Scenario {
+			return in("in-create-2-objects", s, Doc("Create", act(s), "actor", Carol, "object", ord(s,
+				Emb("Note", rNoteA, "attributedTo", Carol, "content", "a"), Emb("Note", rNoteB, "attributedTo", Carol, "content", "b"))))
+		}},
+		{"in-update-2-objects", func(s int) *Scenario {
+			return in("in-update-2-objects", s, Doc("Update", act(s), "actor", Carol, "object", ord(s,
+				Emb("Note", RNote, "attributedTo", Carol, "content", fmt.Sprintf("edit %d", s)), Emb("Note", RNote2, "attributedTo", Carol, "content", fmt.Sprintf("edit %d", s)))))
+		}},
+		{"in-delete-2-objects", func(s int) *Scenario {
+			return in("in-delete-2-objects", s, Doc("Delete", act(s), "actor", Carol, "object", ord(s, RNote, RNote2)))
+		}},
+		{"out-like-2", func(s int) *Scenario { return out("out-like-2", s, Doc("Like", "", "actor", Alice, "object", ord(s, RNote, RNote2))) }},
+		{"out-add-2-targets", func(s int) *Scenario {
+			return out("out-add-2-targets", s, Doc("Add", "", "actor", Alice, "object", []string{RNote, RNote2}[s], "target", ord(s, Col1, OCol1)))
+		}},
+		{"out-remove-2-targets", func(s int) *Scenario {
+			return out("out-remove-2-targets", s, Doc("Remove", "", "actor", Alice, "object", Dave, "target", ord(s, Col1, OCol1)))
+		}},
+		{"out-update-2-objects", func(s int) *Scenario {
+			return out("out-update-2-objects", s, Doc("Update", "", "actor", Alice, "object", ord(s,
+				Emb("Note", Note1, "content", fmt.Sprintf("edited %d", s)), Emb("Note", Note2, "content", fmt.Sprintf("edited %d", s)))))
+		}},
+		{"out-delete-2-objects", func(s int) *Scenario {
+			return out("out-delete-2-objects", s, Doc("Delete", "", "actor", Alice, "object", ord(s, Note1, Note2)))
+		}},
+		{"out-create-2-objects", func(s int) *Scenario {
+			return out("out-create-2-objects", s, Doc("Create", "", "actor", Alice, "to", who(s), "object", ord(s,
+				Emb("Note", "", "content", "a"), Emb("Note", "", "content", "b"))))
+		}},
+	}
+	tweak := func(a *ap.App) {
+		a.OnFollow = pub.OnFollowAutomaticallyAccept
+		a.PutDoc(Doc("Note", RNote, "attributedTo", Carol, "content", "cached copy"))
+		a.PutDoc(Doc("Note", RNote2, "attributedTo", Carol, "content", "cached copy 2"))
+		a.PutDoc(Doc("Follow", "https://l.example/f/2", "actor", Alice, "object", L{Carol, Dave}))
+	}
+	var outS []*ConcScenario
+	for _, k := range kinds {
+		outS = append(outS, &ConcScenario{Name: "order/" + k.name, Tweak: tweak, Reqs: []*Scenario{k.mk(0), k.mk(1)}})
+	}
+	return outS
+}
